@@ -754,6 +754,27 @@ func (c *cluster) longOutage(seed int64) {
 	}
 	rep.Obs("lag.messages-followed-live-across-the-installation", len(lv))
 	rep.Case("lag|follower-brought-back-by-snapshot", nAcked)
+	// the node now holds a snapshot and hardly any log: killed and started again it has to
+	// rebuild its state from that snapshot, and must still deliver everything
+	away.signal(syscall.SIGKILL)
+	time.Sleep(500 * time.Millisecond)
+	if err := c.startNode(away, ""); err != nil {
+		rep.broken(err.Error())
+		return
+	}
+	if !c.waitHealthy(90*time.Second, 3) {
+		viol("restarted-node-never-healthy", fmt.Sprintf("node %d, restarted on a directory that holds a snapshot, did not become a healthy member within 90s", away.idx), map[string]interface{}{"log_tail": tailFile(filepath.Join(away.dir, "stderr.txt"))})
+		return
+	}
+	again, found2 := c.fetchAll(away, obs, sentinel, 120*time.Second)
+	var av []string
+	for _, m := range again {
+		av = append(av, fmt.Sprintf("%d.%d|%s", m.Id.Id, m.Id.Reply, mask003(m.Data)))
+	}
+	if !found2 || strings.Join(av, "\x00") != strings.Join(fv, "\x00") {
+		viol("restart-from-snapshot-changes-stream", fmt.Sprintf("after a restart from its snapshot node %d delivers %d messages (sentinel reached: %v) where it delivered %d before the restart", away.idx, len(av), found2, len(fv)), nil)
+	}
+	rep.Case("lag|restart-from-snapshot", len(av))
 	rep.Obs("lag.messages-fetched-from-the-returned-node", len(msgs))
 }
 
